@@ -72,6 +72,7 @@ def run(chk, facts, tier, only=None):
 
     def r1():
         de_rules.rule_check_before_read(chk, facts)
+        de_rules.rule_mismatch_is_subtype_error(chk, facts)
 
     def r2():
         de_rules.rule_flag_sources(chk, facts)
@@ -234,6 +235,62 @@ def run(chk, facts, tier, only=None):
 
     def r7():
         de_rules.rule_visitor_table(chk, facts)
+        reader_follows_wire_type()
+
+    def reader_follows_wire_type():
+        # in deserialize_int a number is read with the signed reader iff the *wire* type is int and with the unsigned reader iff it is nat
+        # (expected int / wire nat is the one coercion): the choice must come from a test of self.wire_type, not from a fast-path flag
+        h = c.method(r"^candid::de::Deserializer", "deserialize_int", "")
+        chk.analysed(h["key"])
+        par = {}
+        def index(n, p_):
+            if isinstance(n, dict):
+                if "k" in n:
+                    par[id(n)] = p_
+                    p_ = n
+                for v in n.values():
+                    index(v, p_)
+            elif isinstance(n, list):
+                for v in n:
+                    index(v, p_)
+        index(h["body"], None)
+        lets = {st["pat"]["n"]: st for st in nodes(h["body"], "slet") if (st.get("pat") or {}).get("k") == "bind" and st.get("init") is not None}
+
+        def wire_variant_of(cond):
+            """`matches!(self.wire_type.as_ref(), TypeInner::X)` (directly or through a let-bound bool) -> X"""
+            cnd = unblock(cond)
+            if cnd.get("k") == "path" and (cnd.get("res") or {}).get("path") in lets:
+                cnd = unblock(lets[cnd["res"]["path"]]["init"])
+            if cnd.get("k") == "match" and "wire_type" in (expr_path(unblock(cnd["scrut"]).get("recv") or cnd["scrut"]) or ""):
+                vs = [v for a in cnd["arms"] if lit_value(a["body"]) is True for v in variant_paths_pat({"arms": [a]})]
+                return vs[0] if len(vs) == 1 else None
+            return None
+        READERS = {"try_read_leb_i64": "Int", "try_read_leb_u64": "Nat"}
+        n_r = 0
+        for x in walk(h["body"]):
+            nm = x.get("m") if x.get("k") == "mcall" else ((callee(x) or "").rsplit("::", 2)[-2] + "::" + (callee(x) or "").rsplit("::", 1)[-1] if x.get("k") == "call" else None)
+            want = READERS.get(nm) or {"Int::decode": "Int", "Nat::decode": "Nat"}.get(nm or "")
+            if not want:
+                continue
+            n_r += 1
+            got = None
+            p_ = par.get(id(x))
+            child = x
+            while p_ is not None and got is None:
+                if p_.get("k") == "if" and any(y is child for y in walk(p_["t"])):
+                    got = wire_variant_of(p_["c"]) or "?"
+                if p_.get("k") == "match" and p_.get("src") == "Normal" and "wire_type" in (expr_path(unblock(p_["scrut"]).get("recv") or p_["scrut"]) or ""):
+                    for a in p_["arms"]:
+                        if any(y is child for y in walk(a["body"])):
+                            vs = variant_paths_pat({"arms": [a]})
+                            got = vs[0] if len(vs) == 1 else "?"
+                child = p_
+                p_ = par.get(id(p_))
+            chk.expect(got == want, f"deserialize_int:reader:{nm}",
+                       f"deserialize_int calls {nm} in a branch selected by {'a test of self.wire_type == ' + str(got) if got and got != '?' else 'something other than a test of self.wire_type'}: "
+                       f"the {('signed' if want == 'Int' else 'unsigned')} reader is for wire type {want.lower()} only (a nat read as signed LEB128 turns 64..127 negative)",
+                       where=f"{h['span']['file']}:{x.get('ln')}", ok_detail=f"{nm} under wire_type == {want}")
+        chk.floor("number readers in deserialize_int", n_r, 4)
 
     def r6():
         hs = [h for k, h in c.hir.items() if "bounded_vec" in k and k.endswith("::deserialize")]
